@@ -84,6 +84,7 @@ zPivotGrowth(int ncols, SuperMatrix *A, int *perm_c,
     Uval = Ustore->nzval;
     
     inv_perm_c = (int *) SUPERLU_MALLOC(A->ncol*sizeof(int));
+    if ( !inv_perm_c ) ABORT("SUPERLU_MALLOC fails for inv_perm_c[]");
     for (j = 0; j < A->ncol; ++j) inv_perm_c[perm_c[j]] = j;
 
     for (k = 0; k <= Lstore->nsuper; ++k) {
